@@ -96,6 +96,44 @@ def loc_field_path(prog, frame, cell, loc):
     return names
 
 
+def truncating_specs(idx, outs, seen=None):
+    """placeholders exercised by the write_fmt events of `outs` whose format spec carries a precision although the argument is not a
+    floating-point number: for strings (and everything printed through `Formatter::pad`) a precision cuts the text off"""
+    found = []
+    seen = set() if seen is None else seen
+    for o in outs:
+        for e in o.events:
+            if e["kind"] != "write_fmt" or id(e) in seen:
+                continue
+            seen.add(id(e))
+            site = find_site(idx, e["span"])
+            if site is None:
+                continue
+            for pc in site["pieces"]:
+                if not isinstance(pc, dict) or pc.get("precision") is None:
+                    continue
+                ai = pc["arg"]
+                if not isinstance(ai, int) or ai < 0 or ai >= len(e["args"]):
+                    continue
+                tr, ty, v = e["args"][ai]
+                if isinstance(v, FloatVal) or str(ty).lstrip("&").strip() in ("f64", "f32"):
+                    continue
+                expr = site["args"][ai]["expr"] if ai < len(site["args"]) else "?"
+                found.append((site, pc, expr, ty, v))
+    return found
+
+
+def _strs_in(v, depth=0):
+    """literal text inside a string value: the string itself, or the sources a formatted / converted String was built from"""
+    out = []
+    if isinstance(v, Opaque) and depth < 4:
+        if isinstance(v.get("s"), str):
+            out.append(v.get("s"))
+        for x in v.get("src") or ():
+            out.extend(_strs_in(x, depth + 1))
+    return out
+
+
 def keyword_of(text):
     t = text.lower()
     for k, fields in LABELS:
@@ -132,6 +170,10 @@ def render_rules(rep, prog, oks):
         dfid = p.ids[0]
         wrote_any_all = True
         done_ev = set()
+        for site, pc, expr, ty, _v in truncating_specs(idx, outs):
+            rep.violation("R1", "truncated:%s:%s" % ("::".join(site["item"][-2:]), expr),
+                          "%s: `%s` (%s) is printed with a precision (%r), which cuts the text off instead of showing the decoded value in full (%s:%d)"
+                          % (label, expr, ty, pc.get("precision"), site["span"]["file"], site["span"]["lo"][0]))
         for o in outs:
             evs = [e for e in o.events if e["kind"] == "write_fmt"]
             if not evs and not (isinstance(o.retval, AdtVal) and o.retval.vname == "Err"):
@@ -408,6 +450,41 @@ def guard_rule(rep, prog, oks):
                     if not tests:
                         rep.violation("R3", "guard:altitude-line:%s:%s" % (lab, "untested-present" if present else "untested-absent"),
                                       "%s %s the altitude line on a path that never looked at the decoded altitude (the line depends on something other than altitude > 0)" % (lab, "prints" if present else "omits"))
+    # airborne position reports: the altitude shown is the decoded one - on every rendering path of a frame whose altitude decoded to
+    # Some(a), `a` itself is printed (no rendering-time condition may replace it by something else); with None, the word None is
+    for lab, p in sorted(reps.items()):
+        if "ME::AirbornePosition" not in lab or not (lab.endswith("/Option::Some") or lab.endswith("/Option::None")):
+            continue
+        some = lab.endswith("/Option::Some")
+        alt_atoms = frozenset()
+        for l in p.leaves:
+            if "adsb_deku::Altitude" in l.adts and "alt" in l.path and l.atoms:
+                alt_atoms = frozenset(l.atoms)
+        if some and not alt_atoms:
+            continue
+        ip, outs = run_fmt(prog, p)
+        for o in outs:
+            shown = False
+            none_word = False
+            for e in o.events:
+                if e["kind"] != "write_fmt":
+                    continue
+                for _tr, _ty, v in e["args"]:
+                    d = deps_of(v)
+                    if some and d and d == alt_atoms:
+                        shown = True
+                    if any("none" in t.lower() for t in _strs_in(v)):
+                        none_word = True
+                site = find_site(idx, e["span"])
+                if site and any(isinstance(pc, str) and "none" in pc.lower() for pc in site["pieces"]):
+                    none_word = True
+            n += 1
+            rep.instance(rid, "%s|altitude-shown|%d" % (lab, n))
+            if some and not shown:
+                rep.violation("R3", "position-altitude:%s:not-shown" % lab.split("/")[1], "%s: a rendering path does not print the decoded altitude (%s) although it is present%s"
+                              % (lab, rng_str(alt_atoms), "; it prints None instead" if none_word else ""))
+            if not some and not none_word:
+                rep.violation("R3", "position-altitude:%s:none-not-shown" % lab.split("/")[1], "%s: a rendering path of a report without altitude does not print None" % lab)
     # velocity: report vs "Invalid packet"
     lab = "DF::ADSB/ME::AirborneVelocity/AirborneVelocitySubType::GroundSpeedDecoding"
     p = reps.get(lab)
